@@ -286,5 +286,10 @@ func c07RandomScript(r *rand.Rand, p engParams) []scripted.Reply {
 				Addr: netip.AddrFrom4([4]byte{10, byte(k), byte(len(script)), byte(t)})})
 		}
 	}
+	// polls that end with a retryable error (malformed or unrelated packet), bare and wrapped with context: which polls
+	// fall between the replies must not change the merge, and none of them may end the run
+	for k := r.Intn(4); k > 0; k-- {
+		script = append(script, scripted.Reply{At: time.Duration(r.Int63n(int64(total))) | 1, Bad: 1 + r.Intn(4)})
+	}
 	return script
 }
